@@ -376,9 +376,8 @@ def execute(sc, sim):
                                  src_opts=s["sopts"], dest_opts=s["dopts"],
                                  encs=[s["src_enc"], s["dest_enc"]]))
             break
-        if obs_by_step[i].get("unclosed_at_return"):
-            viols.append(cm.viol("C03/file-left-open/%s" % pair_sig(s),
-                                 files=obs_by_step[i]["unclosed_at_return"]))
+        # a file still open when main() returns is counted (probe file_open_at_return), not
+        # judged: no clause of the property speaks of it and interpreter exit flushes it
         if s["dest_enc"] == "utf-16":
             st.probe("utf16_dest")
         if s["dest_enc"] == "latin-1":
